@@ -334,10 +334,9 @@ theorem load_accept_build {c : Cfg} {fls : List Flow} (h : load c = .accept fls)
   unfold load at h
   repeat' (split at h)
   all_goals first
-    | (rename_i hb
-       simp only [LoadRes.accept.injEq] at h
+    | (simp only [LoadRes.accept.injEq] at h
        subst h
-       exact hb)
+       assumption)
     | (simp at h)
 
 theorem load_validated {c : Cfg} {fls : List Flow} (h : load c = .accept fls) : ∀ f ∈ fls, Validated f :=
